@@ -160,6 +160,20 @@ func treeFromAny(v any) tree {
 		sortMembers(n.M)
 		return n
 	}
+	// other integer / float widths (alt.Decompose hands some of them through unchanged)
+	rv := reflect.ValueOf(v)
+	switch rv.Kind() {
+	case reflect.Int, reflect.Int8, reflect.Int16, reflect.Int32, reflect.Int64:
+		return leaf("num", strconv.FormatInt(rv.Int(), 10))
+	case reflect.Uint, reflect.Uint8, reflect.Uint16, reflect.Uint32, reflect.Uint64:
+		return leaf("num", strconv.FormatUint(rv.Uint(), 10))
+	case reflect.Float32, reflect.Float64:
+		return leaf("num", canonFloat(rv.Float()))
+	case reflect.String:
+		return leaf("str", rv.String())
+	case reflect.Bool:
+		return leaf("bool", strconv.FormatBool(rv.Bool()))
+	}
 	return leaf("other", fmt.Sprintf("%T", v))
 }
 
@@ -317,13 +331,17 @@ var encoders = []encoder{
 	}},
 }
 
+// errUnparsed: the SEN text is not read back by sen.Parse. Whether SEN output re-reads is C10's property, not C15's:
+// such outputs are recorded with r = "unparsed" and left out of the judgement.
+var errUnparsed = fmt.Errorf("sen output does not parse back")
+
 func senOut(s string) (string, *tree, error) {
 	if s == "" {
 		return "", nil, fmt.Errorf("empty output")
 	}
 	v, err := sen.Parse([]byte(s))
 	if err != nil {
-		return s, nil, fmt.Errorf("sen output does not parse back: %v", err)
+		return s, nil, errUnparsed
 	}
 	t := treeFromAny(v)
 	return s, &t, nil
@@ -337,6 +355,9 @@ func callEncoder(e encoder, x, px any, o *ojg.Options) (raw string, t tree, r, m
 	}()
 	oc := *o
 	raw, tp, err := e.fn(x, px, &oc)
+	if err == errUnparsed {
+		return raw, leaf("none", ""), "unparsed", ""
+	}
 	if err != nil {
 		return raw, leaf("none", ""), "fail", trunc(err.Error())
 	}
